@@ -60,6 +60,10 @@ var (
 	c36PVpn  = netip.MustParseAddr("10.77.0.2")
 	c36WVpn  = netip.MustParseAddr("10.77.0.3")
 	c36LVpn  = netip.MustParseAddr("10.77.0.9")
+	// two-address configurations: P's certificate carries a second overlay address in another overlay network that I am
+	// part of as well; the two addresses fall into different remote_allow_ranges blocks (A5 / A6)
+	c36P2Vpn  = netip.MustParseAddr("10.99.0.2")
+	c36Me2Vpn = netip.MustParseAddr("10.99.0.1")
 
 	c36MeUDP = c36AP("192.0.2.1:4242")
 	c36PUDP  = c36AP("192.0.2.2:4242")
@@ -69,16 +73,19 @@ var (
 	// addresses that may be claimed for P (never for L)
 	c36PAlt  = c36AP("192.0.2.22:4242")  // allowed everywhere, nobody lives there (inside preferred_ranges)
 	c36PAlt2 = c36AP("192.0.2.23:4243")  // allowed everywhere: used as handshake source / roaming source
-	c36PHi   = c36AP("192.0.2.130:4242") // denied only by the A4 range list
+	c36PHi   = c36AP("192.0.2.130:4242") // denied only by the A4 range list and by the block of P's second overlay address (A5, A6)
 	c36D4a   = c36AP("198.51.100.3:4242")
 	c36D4b   = c36AP("198.51.100.2:4242") // allowed by the /32 exception of A3 only
-	c36R4    = c36AP("203.0.113.2:4242")  // denied for P's overlay range in A2, by the default of A4
+	c36R4    = c36AP("203.0.113.2:4242")  // denied for P's overlay range in A2, by the default of A4; in A5/A6 for P's first address only
 	c36I4    = c36AP("10.77.0.50:4242")   // inside my overlay network
 	c36I4c   = c36AP("10.77.0.130:4242")  // inside my overlay network (what calculated_remotes produces)
 	c36G6    = c36AP("[2001:db8::2]:4242")
 	c36D6a   = c36AP("[2001:db8:dead::3]:4242")
 	c36D6b   = c36AP("[2001:db8:dead::2]:4242")
 	c36R6    = c36AP("[2001:db8:beef::2]:4242")
+	c36PHi2  = c36AP("192.0.2.131:4242")  // like PHi, but never reported / configured: only a source address of P's packets
+	c36R4b   = c36AP("203.0.113.3:4242")  // like R4, but never reported / configured
+	c36H6    = c36AP("[2001:db8:f00d::2]:4242") // denied only by the block of P's second overlay address (A5, A6)
 	c36I6    = c36AP("[fd77::50]:4242") // inside my overlay network when I have the v6 network
 	c36SStat = c36AP("192.0.2.61:4242") // only in static_host_map
 	c36SDns  = c36AP("192.0.2.62:4242") // only in DNS result sets
@@ -100,7 +107,7 @@ var c36Lists = func() map[string]c36AddrList {
 	l := map[string]c36AddrList{
 		"K0": {},
 		"K1": {v4: []netip.AddrPort{c36PUDP}},
-		"K2": {v4: []netip.AddrPort{c36I4, c36D4a, c36D4b, c36R4, c36PHi, c36PAlt, c36PUDP}, v6: []netip.AddrPort{c36I6, c36D6a, c36D6b, c36R6, c36G6}},
+		"K2": {v4: []netip.AddrPort{c36I4, c36D4a, c36D4b, c36R4, c36PHi, c36PAlt, c36PUDP}, v6: []netip.AddrPort{c36I6, c36D6a, c36D6b, c36R6, c36H6, c36G6}},
 		"K4": {v4: []netip.AddrPort{c36WUDP}},
 		"K6": {v4: []netip.AddrPort{c36WUDP, c36PUDP}}, // the wrong host and the right one: delivery order decides who answers first
 		"KL": {v4: []netip.AddrPort{c36LIn, c36LDen, c36LGood}},
@@ -119,8 +126,9 @@ var c36Lists = func() map[string]c36AddrList {
 	return l
 }()
 
-var c36DnsSet = []netip.AddrPort{c36SDns, c36D4b, c36I4, c36R4, c36D6b, c36I6}
-var c36StaticP = []netip.AddrPort{c36PUDP, c36SStat, c36D4a, c36I4, c36R4, c36D6a, c36I6}
+var c36DnsSet = []netip.AddrPort{c36SDns, c36D4b, c36I4, c36R4, c36PHi, c36D6b, c36I6}
+var c36StaticP = []netip.AddrPort{c36PUDP, c36SStat, c36D4a, c36I4, c36R4, c36PHi, c36D6a, c36I6}
+var c36CalcP = []netip.AddrPort{c36SCalc, c36D4b, c36I4c, c36R4, c36PHi}
 
 // ---------------------------------------------------------------------------------------------------------------
 // reference: prefix containment by bit loop, allow list by naive longest prefix
@@ -244,6 +252,7 @@ var c36ReasonText = map[string]string{
 	"inside":        "inside the node's own overlay networks",
 	"denied-global": "denied by remote_allow_list",
 	"denied-range":  "denied by remote_allow_ranges for the peer's overlay range",
+	"denied-range-cert": "denied by remote_allow_ranges for the range of another overlay address in the peer's certificate",
 	"blocked":       "blocked after a wrong host answered the handshake in progress",
 }
 
@@ -265,7 +274,19 @@ var c36Allows = []c36Allow{
 		"::/0": true, "2001:db8:dead::/48": false, "2001:db8:dead::2/128": true}},
 	{Name: "A4-allowonly+range", Global: map[string]bool{"192.0.2.0/24": true, "2001:db8::/32": true},
 		Ranges: map[string]map[string]bool{"10.77.0.0/24": {"192.0.2.0/25": true, "2001:db8::/32": true}}},
+	// two blocks, one per overlay address of a two-address peer: 203.0.113.0/24 + beef::/48 are denied for the first address
+	// only, 192.0.2.128/25 + f00d::/48 for the second address only (deny lists / allow-only lists)
+	{Name: "A5-deny+2ranges", Global: map[string]bool{"198.51.100.0/24": false, "2001:db8:dead::/48": false},
+		Ranges: map[string]map[string]bool{"10.77.0.2/31": {"203.0.113.0/24": false, "2001:db8:beef::/48": false},
+			"10.99.0.0/24": {"192.0.2.128/25": false, "2001:db8:f00d::/48": false}}},
+	{Name: "A6-allowonly+2ranges", Global: map[string]bool{"192.0.2.0/24": true, "203.0.113.0/24": true, "2001:db8::/32": true},
+		Ranges: map[string]map[string]bool{"10.77.0.0/24": {"192.0.2.0/24": true, "2001:db8::/32": true},
+			"10.99.0.0/24": {"192.0.2.0/25": true, "203.0.113.0/24": true, "2001:db8::/48": true}}},
 }
+
+// allow lists of the single-address alphabet / of the two-address alphabet
+var c36AllowsSingle = []int{0, 1, 2, 3, 4}
+var c36AllowsMulti = []int{5, 6}
 
 const (
 	c36SrcPlain  = 0
@@ -278,6 +299,8 @@ type c36Cfg struct {
 	V6         bool
 	Allow      int
 	Src        int
+	Multi      bool // P's certificate carries two overlay addresses (10.77.0.2 and 10.99.0.2; I am in both networks)
+	Alias2     bool // I address P by its second overlay address (tun packets, queries, static_host_map key); client role only
 }
 
 func (g c36Cfg) String() string {
@@ -288,16 +311,48 @@ func (g c36Cfg) String() string {
 	if g.V6 {
 		nets = "v4+v6"
 	}
-	return fmt.Sprintf("%s/%s/%s/%s", role, nets, c36Allows[g.Allow].Name, []string{"plain", "staticP", "calc"}[g.Src])
+	s := fmt.Sprintf("%s/%s/%s/%s", role, nets, c36Allows[g.Allow].Name, []string{"plain", "staticP", "calc"}[g.Src])
+	if g.Multi {
+		s += "/P=2addr,known-by-" + g.alias().String()
+	}
+	return s
+}
+
+// alias is the overlay address by which I address P; pAddrs is what P's certificate carries (sorted, as certificates are).
+func (g c36Cfg) alias() netip.Addr {
+	if g.Alias2 {
+		return c36P2Vpn
+	}
+	return c36PVpn
+}
+
+func (g c36Cfg) pAddrs() []netip.Addr {
+	if g.Multi {
+		return []netip.Addr{c36PVpn, c36P2Vpn}
+	}
+	return []netip.Addr{c36PVpn}
 }
 
 func c36AllCfgs() []c36Cfg {
 	var out []c36Cfg
 	for _, lhRole := range []bool{false, true} {
 		for _, v6 := range []bool{true, false} {
-			for a := range c36Allows {
+			for _, a := range c36AllowsSingle {
 				for src := 0; src < 3; src++ {
-					out = append(out, c36Cfg{lhRole, v6, a, src})
+					out = append(out, c36Cfg{Lighthouse: lhRole, V6: v6, Allow: a, Src: src})
+				}
+			}
+		}
+	}
+	// two-address peer (appended: the indexes of the single-address configurations are stable)
+	for _, lhRole := range []bool{false, true} {
+		for _, v6 := range []bool{true, false} {
+			for _, a := range c36AllowsMulti {
+				for src := 0; src < 3; src++ {
+					out = append(out, c36Cfg{Lighthouse: lhRole, V6: v6, Allow: a, Src: src, Multi: true})
+					if !lhRole {
+						out = append(out, c36Cfg{Lighthouse: lhRole, V6: v6, Allow: a, Src: src, Multi: true, Alias2: true})
+					}
 				}
 			}
 		}
@@ -308,16 +363,23 @@ func c36AllCfgs() []c36Cfg {
 // c36QuickCfgs: a covering subset (every allow list, both roles, both network sets, every source kind).
 func c36QuickCfgs() []c36Cfg {
 	return []c36Cfg{
-		{false, true, 2, c36SrcPlain},
-		{false, true, 3, c36SrcStatic},
-		{false, true, 1, c36SrcCalc},
-		{false, false, 0, c36SrcPlain},
-		{false, true, 4, c36SrcStatic},
-		{true, true, 2, c36SrcPlain},
-		{true, true, 3, c36SrcCalc},
-		{false, false, 2, c36SrcCalc},
-		{true, false, 2, c36SrcStatic},
-		{false, true, 4, c36SrcPlain},
+		{Lighthouse: false, V6: true, Allow: 2, Src: c36SrcPlain},
+		{Lighthouse: false, V6: true, Allow: 3, Src: c36SrcStatic},
+		{Lighthouse: false, V6: true, Allow: 1, Src: c36SrcCalc},
+		{Lighthouse: false, V6: false, Allow: 0, Src: c36SrcPlain},
+		{Lighthouse: false, V6: true, Allow: 4, Src: c36SrcStatic},
+		{Lighthouse: true, V6: true, Allow: 2, Src: c36SrcPlain},
+		{Lighthouse: true, V6: true, Allow: 3, Src: c36SrcCalc},
+		{Lighthouse: false, V6: false, Allow: 2, Src: c36SrcCalc},
+		{Lighthouse: true, V6: false, Allow: 2, Src: c36SrcStatic},
+		{Lighthouse: false, V6: true, Allow: 4, Src: c36SrcPlain},
+		// two-address peer: both block styles, both aliases, every source kind, both roles
+		{Lighthouse: false, V6: true, Allow: 5, Src: c36SrcPlain, Multi: true},
+		{Lighthouse: false, V6: true, Allow: 5, Src: c36SrcStatic, Multi: true, Alias2: true},
+		{Lighthouse: false, V6: false, Allow: 6, Src: c36SrcStatic, Multi: true},
+		{Lighthouse: true, V6: true, Allow: 5, Src: c36SrcPlain, Multi: true},
+		{Lighthouse: false, V6: false, Allow: 5, Src: c36SrcCalc, Multi: true, Alias2: true},
+		{Lighthouse: false, V6: true, Allow: 6, Src: c36SrcPlain, Multi: true, Alias2: true},
 	}
 }
 
@@ -325,6 +387,9 @@ func (g c36Cfg) ref() *c36Ref {
 	r := &c36Ref{myNets: []netip.Prefix{netip.MustParsePrefix("10.77.0.0/24")}}
 	if g.V6 {
 		r.myNets = append(r.myNets, netip.MustParsePrefix("fd77::/64"))
+	}
+	if g.Multi {
+		r.myNets = append(r.myNets, netip.MustParsePrefix("10.99.0.0/24"))
 	}
 	al := c36Allows[g.Allow]
 	r.global = c36NewList(al.Global)
@@ -360,6 +425,11 @@ func (g c36Cfg) specs() []vnodeSpec {
 	if g.V6 {
 		nets += ",fd77::1/64"
 	}
+	pnets := "10.77.0.2/24"
+	if g.Multi {
+		nets += "," + c36Me2Vpn.String() + "/24"
+		pnets += "," + c36P2Vpn.String() + "/24"
+	}
 	lhm := m{}
 	al := c36Allows[g.Allow]
 	if al.Global != nil {
@@ -381,14 +451,20 @@ func (g c36Cfg) specs() []vnodeSpec {
 	}
 	switch g.Src {
 	case c36SrcStatic:
-		shm[c36PVpn.String()] = c36Strs(c36StaticP)
+		shm[g.alias().String()] = c36Strs(c36StaticP)
 	case c36SrcCalc:
-		lhm["calculated_remotes"] = m{"10.77.0.0/24": []m{
+		masks := []m{
 			{"mask": "192.0.2.64/26", "port": 4242},   // P -> 192.0.2.66
 			{"mask": "198.51.100.0/24", "port": 4242}, // P -> 198.51.100.2
 			{"mask": "10.77.0.128/25", "port": 4242},  // P -> 10.77.0.130 (inside my network)
 			{"mask": "203.0.113.0/24", "port": 4242},  // P -> 203.0.113.2
-		}}
+			{"mask": "192.0.2.128/25", "port": 4242},  // P -> 192.0.2.130
+		}
+		cr := m{"10.77.0.0/24": masks}
+		if g.Multi {
+			cr["10.99.0.0/24"] = masks // the same underlay addresses for P's second overlay address (same host bits)
+		}
+		lhm["calculated_remotes"] = cr
 	}
 	ov := m{
 		"lighthouse":       lhm,
@@ -401,7 +477,7 @@ func (g c36Cfg) specs() []vnodeSpec {
 	}
 	me := vnodeSpec{Name: "me", Networks: nets, Udp: c36MeUDP.String(), Overrides: ov}
 	meStatic := m{"static_host_map": m{c36MeVpn.String(): []string{c36MeUDP.String()}}}
-	p := vnodeSpec{Name: "p", Networks: "10.77.0.2/24", Udp: c36PUDP.String(), Overrides: meStatic}
+	p := vnodeSpec{Name: "p", Networks: pnets, Udp: c36PUDP.String(), Overrides: meStatic}
 	w := vnodeSpec{Name: "w", Networks: "10.77.0.3/24", Udp: c36WUDP.String()}
 	out := []vnodeSpec{me, p, w}
 	if !g.Lighthouse {
@@ -461,6 +537,8 @@ type c36World struct {
 	st       *c36Stats
 	hist     []string
 	cur      string // event being applied
+	alias    netip.Addr   // the overlay address by which I address P
+	pAll     []netip.Addr // every overlay address in P's certificate
 
 	// model
 	blocked   map[netip.AddrPort]bool       // remotes that answered as the wrong host for the P handshake in progress
@@ -470,7 +548,7 @@ type c36World struct {
 }
 
 func c36NewWorld(t testing.TB, cfg c36Cfg, seed int64, st *c36Stats) *c36World {
-	w := &c36World{t: t, cfg: cfg, ref: cfg.ref(), st: st, blocked: map[netip.AddrPort]bool{}, why: map[netip.AddrPort]map[string]bool{},
+	w := &c36World{t: t, cfg: cfg, ref: cfg.ref(), st: st, alias: cfg.alias(), pAll: cfg.pAddrs(), blocked: map[netip.AddrPort]bool{}, why: map[netip.AddrPort]map[string]bool{},
 		pTunnels: map[uint32]bool{}, byUDP: map[netip.AddrPort]*vnode{}, wireH: sha256.New()}
 	// me (and its lighthouse) are assembled now; P and W are assembled the first time a datagram or an event needs
 	// them (an idle node and an absent node are indistinguishable to me). Their certificates exist before the
@@ -492,9 +570,9 @@ func c36NewWorld(t testing.TB, cfg c36Cfg, seed int64, st *c36Stats) *c36World {
 	}
 	switch cfg.Src {
 	case c36SrcStatic:
-		w.supply("static", c36PVpn, c36StaticP)
+		w.supply("static", w.alias, c36StaticP)
 	case c36SrcCalc:
-		w.supply("calc", c36PVpn, []netip.AddrPort{c36SCalc, c36D4b, c36I4c, c36R4})
+		w.supply("calc", w.alias, c36CalcP)
 	}
 	if w.l != nil {
 		// the node has a tunnel with its lighthouse before anything else happens
@@ -546,7 +624,11 @@ func (w *c36World) supply(source string, peer netip.Addr, addrs []netip.AddrPort
 			w.why[a] = map[string]bool{}
 		}
 		w.why[a][source] = true
-		if r := w.ref.refusal([]netip.Addr{peer}, a.Addr()); r != "" {
+		r := w.ref.refusal([]netip.Addr{peer}, a.Addr())
+		if r == "" && peer == w.alias && w.ref.refusal(w.pAll, a.Addr()) != "" {
+			r = "denied-range-cert"
+		}
+		if r != "" {
 			w.st.inc("supplied_refused:" + source + ":" + r)
 		} else {
 			w.st.inc("supplied_usable:" + source)
@@ -554,16 +636,84 @@ func (w *c36World) supply(source string, peer netip.Addr, addrs []netip.AddrPort
 	}
 }
 
+// certKnown: I hold an established tunnel with P, i.e. I have verified P's certificate and know every overlay address of P.
+func (w *c36World) certKnown() bool {
+	hmap := w.me.f.hostMap
+	hmap.RLock()
+	defer hmap.RUnlock()
+	for _, hi := range hmap.Indexes {
+		if len(hi.vpnAddrs) > 0 && hi.vpnAddrs[0] == c36PVpn {
+			return true
+		}
+	}
+	return false
+}
+
+// refusalP is the statement's allow-list clause for an underlay address used for P: an address denied globally or for the
+// range of the overlay address by which I address P is never usable; an address denied for the range of ANY overlay address
+// of P's certificate is unusable as soon as I know that certificate (= while I hold a tunnel with P: before the first
+// handshake completes no node can know the other addresses, the weaker, satisfiable reading).
+func (w *c36World) refusalP(a netip.Addr) string {
+	if r := w.ref.refusal([]netip.Addr{w.alias}, a); r != "" {
+		return r
+	}
+	if w.cfg.Multi && w.certKnown() && w.ref.refusal(w.pAll, a) != "" {
+		return "denied-range-cert"
+	}
+	return ""
+}
+
+func (w *c36World) isP(vpn []netip.Addr) bool {
+	for _, v := range vpn {
+		if v == c36PVpn || (w.cfg.Multi && v == c36P2Vpn) {
+			return true
+		}
+	}
+	return false
+}
+
+func (w *c36World) refusalFor(vpn []netip.Addr, a netip.Addr) string {
+	if w.isP(vpn) {
+		return w.refusalP(a)
+	}
+	return w.ref.refusal(vpn, a)
+}
+
+func (w *c36World) why2(a netip.AddrPort, tag string) {
+	if w.why[a] == nil {
+		w.why[a] = map[string]bool{}
+	}
+	w.why[a][tag] = true
+}
+
+// certNote splits the signature of the "another overlay address of the certificate" clause by the way the address got to
+// the node: reports / configuration entries are filed under ONE overlay address, the answer to a handshake I initiated is
+// checked against the address I dialled; roaming, handshakes I answer and DNS results are checked against the certificate.
+func (w *c36World) certNote(reason string, a netip.AddrPort) string {
+	if reason != "denied-range-cert" {
+		return ""
+	}
+	for _, s := range []string{"reply", "update", "static", "calc", "punch-notification"} {
+		if w.why[a][s] {
+			return " (address from a report or configuration entry filed under one overlay address)"
+		}
+	}
+	if w.why[a]["hs-answer"] {
+		return " (source address of the answer to a handshake the node initiated)"
+	}
+	return ""
+}
+
 func (w *c36World) peerOf(a netip.AddrPort) (string, []netip.Addr) {
 	switch a {
 	case c36LUDP, c36LGood, c36LDen, c36LIn:
 		return "L", []netip.Addr{c36LVpn}
 	case c36WUDP:
-		return "W(for P)", []netip.Addr{c36PVpn}
+		return "W(for P)", []netip.Addr{w.alias}
 	case c36MeUDP:
 		return "", nil
 	}
-	return "P", []netip.Addr{c36PVpn}
+	return "P", []netip.Addr{w.alias}
 }
 
 func c36Kind(data []byte) string {
@@ -605,6 +755,11 @@ func (w *c36World) detail(extra m) m {
 		}
 	}
 	d["address_lists"] = lists
+	if w.cfg.Multi {
+		d["overlay_addresses_in_certificate_of_P"] = fmt.Sprint(w.pAll)
+		d["P_is_addressed_by"] = w.alias.String()
+		d["tunnel_with_P_held_now(certificate_known)"] = w.certKnown()
+	}
 	if w.cfg.Src == c36SrcStatic {
 		d["static_host_map_of_P"] = c36Strs(c36StaticP)
 	}
@@ -639,16 +794,22 @@ func (w *c36World) judgeOut(pkts []vpkt) {
 			class = "data" // encrypted tunnel traffic: "data" of the statement
 		}
 		who, vpn := w.peerOf(p.To)
+		if w.cfg.Multi && vpn != nil && w.isP(vpn) && w.certKnown() {
+			w.st.inc("datagrams_for_P_judged_with_its_certificate_known")
+			if w.ref.refusal(w.pAll, p.To.Addr()) == "" {
+				w.st.inc("datagrams_for_P_usable_for_every_certificate_address")
+			}
+		}
 		if vpn == nil {
 			w.st.viol("C36: datagram sent to the node's own underlay address", w.detail(m{"to": p.To.String(), "kind": kind}))
 			continue
 		}
-		reason := w.ref.refusal(vpn, p.To.Addr())
+		reason := w.refusalFor(vpn, p.To.Addr())
 		if reason == "" && kind == "handshake" && w.blocked[p.To] {
 			reason = "blocked"
 		}
 		if reason != "" {
-			w.st.viol(fmt.Sprintf("C36: %s datagram sent to an underlay address %s", class, c36ReasonText[reason]),
+			w.st.viol(fmt.Sprintf("C36: %s datagram sent to an underlay address %s%s", class, c36ReasonText[reason], w.certNote(reason, p.To)),
 				w.detail(m{"to": p.To.String(), "kind": kind, "peer": who, "address_supplied_by": w.sources(p.To)}))
 			continue
 		}
@@ -725,7 +886,7 @@ func (w *c36World) updateModel() {
 		}
 	}
 	hmap.RUnlock()
-	if len(w.blocked) > 0 && (newTunnel || w.me.hm.queryVpnIp(c36PVpn) == nil) {
+	if len(w.blocked) > 0 && (newTunnel || w.me.hm.queryVpnIp(w.alias) == nil) {
 		w.blocked = map[netip.AddrPort]bool{}
 	}
 }
@@ -740,12 +901,12 @@ func (w *c36World) judgeState() {
 		}
 		for _, a := range r.CopyAddrs(prefs) {
 			w.st.inc("copyaddrs_entries")
-			reason := w.ref.refusal(vpn, a.Addr())
-			if reason == "" && vpn[0] == c36PVpn && w.blocked[a] {
+			reason := w.refusalFor(vpn, a.Addr())
+			if reason == "" && w.isP(vpn) && w.blocked[a] {
 				reason = "blocked"
 			}
 			if reason != "" {
-				w.st.viol("C36: RemoteList.CopyAddrs offers an underlay address "+c36ReasonText[reason],
+				w.st.viol("C36: RemoteList.CopyAddrs offers an underlay address "+c36ReasonText[reason]+w.certNote(reason, a),
 					w.detail(m{"list_of": fmt.Sprint(vpn), "address": a.String(), "address_supplied_by": w.sources(a)}))
 			}
 		}
@@ -783,10 +944,16 @@ func (w *c36World) judgeState() {
 		case w.afterAnswer:
 			ctx = "after a lighthouse answer"
 		}
-		want := map[netip.AddrPort]bool{}
+		// want: usable for the overlay address the host is configured under; must: usable for every overlay address of the
+		// host's certificate as well (the same set unless P has two addresses: the addresses in between may be held or
+		// dropped once the certificate is known — whether they are offered is judged by the CopyAddrs clause above)
+		want, must := map[netip.AddrPort]bool{}, map[netip.AddrPort]bool{}
 		for _, a := range s.addrs {
 			if w.ref.refusal([]netip.Addr{s.vpn}, a.Addr()) == "" {
 				want[a] = true
+				if !w.isP([]netip.Addr{s.vpn}) || w.ref.refusal(w.pAll, a.Addr()) == "" {
+					must[a] = true
+				}
 			}
 		}
 		got := map[netip.AddrPort]bool{}
@@ -810,8 +977,13 @@ func (w *c36World) judgeState() {
 				offered[a] = true
 			}
 		}
-		ok := r != nil && len(got) == len(want)
-		for a := range want {
+		ok := r != nil
+		for a := range got {
+			if !want[a] {
+				ok = false
+			}
+		}
+		for a := range must {
 			if !got[a] || (!offered[a] && !w.blocked[a]) {
 				ok = false
 			}
@@ -825,7 +997,7 @@ func (w *c36World) judgeState() {
 		}
 		if !ok {
 			w.st.viol("C36: a static host does not hold exactly its configured addresses "+ctx,
-				w.detail(m{"static_host": s.vpn.String(), "configured_usable": fmt.Sprint(c36Keys(want)), "held_for_owner_me": fmt.Sprint(c36Keys(got)),
+				w.detail(m{"static_host": s.vpn.String(), "configured_usable": fmt.Sprint(c36Keys(want)), "configured_usable_for_every_certificate_address": fmt.Sprint(c36Keys(must)), "held_for_owner_me": fmt.Sprint(c36Keys(got)),
 					"offered": fmt.Sprint(c36Keys(offered)), "entry_present": r != nil}))
 		}
 	}
@@ -851,7 +1023,7 @@ func (w *c36World) statics() []c36StaticHost {
 		out = append(out, c36StaticHost{c36LVpn, []netip.AddrPort{c36LUDP}})
 	}
 	if w.cfg.Src == c36SrcStatic {
-		out = append(out, c36StaticHost{c36PVpn, c36StaticP})
+		out = append(out, c36StaticHost{w.alias, c36StaticP})
 	}
 	return out
 }
@@ -891,8 +1063,8 @@ func (w *c36World) deliverOne(p vpkt, from netip.AddrPort) {
 		// model: does a wrong host answer the handshake in progress for P?
 		var h header.H
 		if len(p.Data) >= header.Len && h.Parse(p.Data) == nil && h.Type == header.Handshake && h.MessageCounter == 2 && p.From == c36WUDP {
-			if hh := w.me.hm.queryVpnIp(c36PVpn); hh != nil && hh.hostinfo.localIndexId == h.RemoteIndex && !w.ref.inside(from.Addr()) &&
-				w.ref.refusal([]netip.Addr{c36PVpn}, from.Addr()) == "" {
+			if hh := w.me.hm.queryVpnIp(w.alias); hh != nil && hh.hostinfo.localIndexId == h.RemoteIndex && !w.ref.inside(from.Addr()) &&
+				w.ref.refusal([]netip.Addr{w.alias}, from.Addr()) == "" {
 				w.me.deliver(from, p.Data)
 				w.blocked[from] = true
 				w.st.inc("wrong_host_answers")
@@ -974,7 +1146,7 @@ func (w *c36World) apply(ev string) {
 	f := strings.Split(ev, ":")
 	switch f[0] {
 	case "reply": // reply:<P|L>:<list> — the lighthouse answers a query about a host
-		about := c36PVpn
+		about := w.alias
 		if f[1] == "L" {
 			about = c36LVpn
 		}
@@ -984,24 +1156,28 @@ func (w *c36World) apply(ev string) {
 		w.sendLH(w.l, c36Meta(NebulaMeta_HostQueryReply, about, l))
 	case "update": // update:<list> — P reports its addresses to me (I am a lighthouse)
 		l := c36Lists[f[1]]
-		w.supply("update", c36PVpn, append(append([]netip.AddrPort{}, l.v4...), l.v6...))
+		w.supply("update", w.alias, append(append([]netip.AddrPort{}, l.v4...), l.v6...))
 		w.sendLH(w.peer(1), c36Meta(NebulaMeta_HostUpdateNotification, netip.Addr{}, l))
 	case "punch": // punch:<list> — the lighthouse asks me to punch towards P; the punch jobs then become due and run
 		l := c36Lists[f[1]]
-		w.supply("punch-notification", c36PVpn, append(append([]netip.AddrPort{}, l.v4...), l.v6...))
-		w.sendLH(w.l, c36Meta(NebulaMeta_HostPunchNotification, c36PVpn, l))
+		w.supply("punch-notification", w.alias, append(append([]netip.AddrPort{}, l.v4...), l.v6...))
+		w.sendLH(w.l, c36Meta(NebulaMeta_HostPunchNotification, w.alias, l))
 		vtime.Advance(1100 * vtime.Millisecond)
 		w.st.N["punch_jobs"] += int64(w.me.runPunchJobs())
 		w.collect()
 	case "data": // application packet for P on my tun
-		w.me.tunSend(vUDPPacket(c36MeVpn, c36PVpn, 1000, 2000, []byte("c36-data")))
+		mine := c36MeVpn
+		if w.cfg.Alias2 {
+			mine = c36Me2Vpn
+		}
+		w.me.tunSend(vUDPPacket(mine, w.alias, 1000, 2000, []byte("c36-data")))
 		w.collect()
 	case "tick":
 		vtime.Advance(vtime.Second)
 		w.me.hsTick()
 		w.collect()
 	case "rehs":
-		w.me.hm.StartHandshake(c36PVpn, nil)
+		w.me.hm.StartHandshake(w.alias, nil)
 		w.me.settle()
 		w.collect()
 	case "cm":
@@ -1009,7 +1185,7 @@ func (w *c36World) apply(ev string) {
 		w.me.cmTick()
 		w.collect()
 	case "close": // close:<P|L>
-		vpn := c36PVpn
+		vpn := w.alias
 		if f[1] == "L" {
 			vpn = c36LVpn
 		}
@@ -1049,16 +1225,25 @@ func (w *c36World) apply(ev string) {
 			if pk.To != c36MeUDP {
 				continue
 			}
-			src := "roam"
+			src, how := "roam", "roam"
 			if c36Kind(pk.Data) == "handshake" {
 				src = "hs-learned"
+				var h header.H
+				_ = h.Parse(pk.Data)
+				how = fmt.Sprintf("handshake-stage-%d", h.MessageCounter)
+				if h.MessageCounter == 2 {
+					w.why2(x, "hs-answer") // the answer to a handshake I initiated (signature note only)
+				}
 			}
-			w.supply(src, c36PVpn, []netip.AddrPort{x})
+			if w.cfg.Multi && w.ref.refusal([]netip.Addr{w.alias}, x.Addr()) == "" && w.ref.refusal(w.pAll, x.Addr()) != "" {
+				w.st.inc("from_denied_for_second_range_only:" + how)
+			}
+			w.supply(src, w.alias, []netip.AddrPort{x})
 			w.deliverOne(pk, x)
 		}
 	case "dns": // the resolver stored a new result set for static host P and ran its onUpdate callback
 		w.me.lh.RLock()
-		r := w.me.lh.addrMap[c36PVpn]
+		r := w.me.lh.addrMap[w.alias]
 		w.me.lh.RUnlock()
 		if r != nil {
 			r.Lock()
@@ -1072,7 +1257,7 @@ func (w *c36World) apply(ev string) {
 				w.st.inc("dns_updates")
 			}
 			r.Unlock()
-			w.supply("dns", c36PVpn, c36DnsSet)
+			w.supply("dns", w.alias, c36DnsSet)
 		}
 	case "net":
 		w.flush(func(vpkt) bool { return true }, false)
@@ -1115,15 +1300,22 @@ func (w *c36World) menu(thorough bool) []string {
 		}
 	}
 	out = append(out, "data", "tick", "rehs", "cm")
-	if w.tunnelTo(c36PVpn) != nil {
+	if w.tunnelTo(w.alias) != nil {
 		out = append(out, "close:P")
 	}
 	if w.l != nil && w.tunnelTo(c36LVpn) != nil {
 		out = append(out, "close:L")
 	}
 	froms := []netip.AddrPort{c36PUDP, c36PAlt2, c36D4a, c36R4, c36I4}
+	if w.cfg.Multi {
+		// never reported: denied only for the range of P's second / of P's first overlay address
+		froms = []netip.AddrPort{c36PUDP, c36PAlt2, c36D4a, c36I4, c36PHi2, c36R4b}
+	}
 	if thorough {
 		froms = append(froms, c36G6, c36I6, c36D4b)
+		if w.cfg.Multi {
+			froms = append(froms, c36H6)
+		}
 	}
 	for _, x := range froms {
 		out = append(out, "from:"+x.String())
@@ -1286,6 +1478,11 @@ func c36Seeds(cfg c36Cfg, thorough bool) [][]string {
 	)
 	if cfg.Src == c36SrcStatic {
 		seeds = append(seeds, []string{"data", "net", "dns"}, []string{"dns", "data"})
+	}
+	if cfg.Multi && !cfg.Lighthouse {
+		// P's answer to my handshake is in flight (the next event may let it arrive from any source address); placed among
+		// the seeds that the quick tier searches to full depth
+		seeds = append(seeds[:2:2], append([][]string{{src + "K1", "data", "hop"}}, seeds[2:]...)...)
 	}
 	if !thorough {
 		// quick: the searches from the deeper seeds are one event shallower
@@ -1596,7 +1793,7 @@ func TestVerifC36(t *testing.T) {
 		need(sum["used:"+s] > 0, "source "+s+" never contributed an address that was used")
 	}
 	for _, s := range []string{"reply", "update", "static", "calc", "dns", "hs-learned", "roam", "punch-notification"} {
-		for _, r := range []string{"inside", "denied-global", "denied-range"} {
+		for _, r := range []string{"inside", "denied-global", "denied-range", "denied-range-cert"} {
 			need(sum["supplied_refused:"+s+":"+r] > 0, "source "+s+" never supplied an address that is "+r)
 		}
 	}
@@ -1606,6 +1803,9 @@ func TestVerifC36(t *testing.T) {
 	need(sum["datagrams:handshake"] > 0 && sum["datagrams:punch"] > 0 && sum["datagrams:data"] > 0 && sum["datagrams:test"] > 0, "not every datagram kind observed")
 	need(sum["used:reply:punch"]+sum["used:update:punch"] > 0, "keep-alive punches to reported addresses never observed")
 	need(sum["dns_updates"] > 0, "no DNS result update applied")
+	need(sum["datagrams_for_P_judged_with_its_certificate_known"] > 0 && sum["datagrams_for_P_usable_for_every_certificate_address"] > 0, "no datagram for a two-address peer judged with its certificate known")
+	need(sum["from_denied_for_second_range_only:roam"] > 0 && sum["from_denied_for_second_range_only:handshake-stage-1"] > 0 && sum["from_denied_for_second_range_only:handshake-stage-2"] > 0,
+		"roaming / handshake (as responder and as initiator) from a source denied only for the range of the peer's other overlay address not all exercised")
 	c.Set("vacuity_guards_unmet", unmet)
 	if len(unmet) > 0 && len(timeCapped) == 0 {
 		c.Require(false, "%v", unmet)
